@@ -4,6 +4,7 @@ import (
 	"fmt"
 	"go/types"
 	"math/big"
+	"strings"
 	"sync"
 
 	"golang.org/x/tools/go/ssa"
@@ -45,6 +46,7 @@ type Sl struct {
 	Obj           int
 	Off, Len, Cap int
 	Nil           bool
+	SymLen        *Term // if set: a slice of symbolic length whose elements are never accessed
 }
 
 // BSl is a byte slice: backing location holds a BA; offset/len/cap are 64-bit terms.
@@ -59,13 +61,20 @@ type BSl struct {
 // Str is a string. Kind 0: concrete; 1: atom (opaque identity, equality only);
 // 2: bytes (immutable SMT array + length).
 type Str struct {
-	Kind int
-	Conc string
-	Atom *Term
-	A    *Term
-	Len  *Term
-	Max  int
+	Kind    int
+	Conc    string
+	Atom    *Term
+	A       *Term
+	Len     *Term
+	Max     int
+	Codec   string // kind 3: the string is codec(Payload); codecs are treated as injective free constructors
+	Payload Value
 }
+
+func encStr(codec string, payload Value) Str { return Str{Kind: 3, Codec: codec, Payload: payload} }
+
+// codecs whose output is never the empty string
+var nonEmptyCodec = map[string]bool{"u64dec": true, "addrhex": true, "hashhex": true, "hexutil": true}
 
 // If is an interface value; T == nil is the nil interface.
 type If struct {
@@ -314,6 +323,16 @@ func (s Str) asBytes() (a, ln *Term, max int, ok bool) {
 
 // bytesEqTerm: equality of two byte sequences (array, offset, len, max).
 func bytesEqTerm(a1, o1, l1 *Term, m1 int, a2, o2, l2 *Term, m2 int) *Term {
+	if l1.IsConst() && l2.IsConst() {
+		if l1 != l2 {
+			return False
+		}
+		n := int(l1.Val.Int64())
+		if n == 0 {
+			return True
+		}
+		return Eq(WordOf(a1, o1, n), WordOf(a2, o2, n))
+	}
 	m := m1
 	if m2 < m {
 		m = m2
@@ -330,6 +349,32 @@ func bytesEqTerm(a1, o1, l1 *Term, m1 int, a2, o2, l2 *Term, m2 int) *Term {
 func strEq(a, b Str) *Term {
 	if a.Kind == 0 && b.Kind == 0 {
 		return Bool(a.Conc == b.Conc)
+	}
+	if a.Kind == 3 || b.Kind == 3 {
+		if a.Kind != 3 {
+			a, b = b, a
+		}
+		if b.Kind == 3 {
+			if a.Codec != b.Codec {
+				return False
+			}
+			return eqVal(a.Payload, b.Payload)
+		}
+		if b.Kind == 0 {
+			if b.Conc == "" {
+				if nonEmptyCodec[a.Codec] || strings.HasPrefix(a.Codec, "join") {
+					return False
+				}
+				if p, ok := a.Payload.(Str); ok && p.Kind == 2 {
+					return Eq(p.Len, Idx(0))
+				}
+			}
+			if _, isConst := constCodecCompare(a, b.Conc); isConst {
+				r, _ := constCodecCompare(a, b.Conc)
+				return r
+			}
+		}
+		panic(engErr("comparison of an encoded string (" + a.Codec + ") with a non-encoded string"))
 	}
 	if a.Kind == 1 || b.Kind == 1 {
 		var ta, tb *Term
@@ -356,6 +401,26 @@ func strEq(a, b Str) *Term {
 	return bytesEqTerm(a1, Idx(0), l1, m1, a2, Idx(0), l2, m2)
 }
 
+// constCodecCompare: comparison of codec output with a concrete string when decidable.
+func constCodecCompare(a Str, c string) (*Term, bool) {
+	switch a.Codec {
+	case "addrhex", "hashhex", "hexutil":
+		if !strings.HasPrefix(c, "0x") {
+			return False, true
+		}
+	case "u64dec":
+		for _, ch := range c {
+			if ch < '0' || ch > '9' {
+				return False, true
+			}
+		}
+		if c == "" {
+			return False, true
+		}
+	}
+	return nil, false
+}
+
 // structural equality (Go's ==) as a term
 func eqVal(a, b Value) *Term {
 	switch x := a.(type) {
@@ -377,11 +442,10 @@ func eqVal(a, b Value) *Term {
 		return And(cs...)
 	case BA:
 		y := b.(BA)
-		var cs []*Term
-		for i := 0; i < x.N; i++ {
-			cs = append(cs, Eq(Select(x.A, Idx(i)), Select(y.A, Idx(i))))
+		if x.N == 0 {
+			return True
 		}
-		return And(cs...)
+		return Eq(WordOf(x.A, Idx(0), x.N), WordOf(y.A, Idx(0), y.N))
 	case Str:
 		return strEq(x, b.(Str))
 	case If:
@@ -447,6 +511,16 @@ func eqVal(a, b Value) *Term {
 	case Big:
 		y := b.(Big)
 		return And(Eq(x.Neg, y.Neg), Eq(x.Mag, y.Mag))
+	case Tu:
+		y, ok := b.(Tu)
+		if !ok || len(x.E) != len(y.E) {
+			return False
+		}
+		var cs []*Term
+		for i := range x.E {
+			cs = append(cs, eqVal(x.E[i], y.E[i]))
+		}
+		return And(cs...)
 	}
 	panic(engErr(fmt.Sprintf("eqVal %T", a)))
 }
@@ -501,6 +575,12 @@ func iteV(c *Term, a, b Value) Value {
 		y := b.(Str)
 		if x.Kind == 0 && y.Kind == 0 && x.Conc == y.Conc {
 			return x
+		}
+		if x.Kind == 3 || y.Kind == 3 {
+			if x.Kind == 3 && y.Kind == 3 && x.Codec == y.Codec {
+				return Str{Kind: 3, Codec: x.Codec, Payload: iteV(c, x.Payload, y.Payload)}
+			}
+			panic(mergeFail{})
 		}
 		if x.Kind == 1 || y.Kind == 1 {
 			var ta, tb *Term
@@ -563,6 +643,16 @@ func iteV(c *Term, a, b Value) Value {
 		panic(mergeFail{})
 	case Opq:
 		return a
+	case Tu:
+		y, ok := b.(Tu)
+		if !ok || len(x.E) != len(y.E) {
+			panic(mergeFail{})
+		}
+		e := make([]Value, len(x.E))
+		for i := range e {
+			e[i] = iteV(c, x.E[i], y.E[i])
+		}
+		return Tu{e}
 	case Fn:
 		y := b.(Fn)
 		if x.Nil && y.Nil {
